@@ -1,7 +1,7 @@
 //! property: C13
 //! unit: V-C13-smo
 //! tier: quick
-//! fns: linfa_svm::solver_smo::SolverState::solve (write-back statements), linfa_svm::solver_smo::SolverState::do_shrinking, linfa_svm::solver_smo::SolverState::do_shrinking_nu, linfa_svm::solver_smo::SolverState::nactive, linfa_svm::solver_smo::SolverState::ntotal, linfa_svm::solver_smo::SolverState::swap, linfa_svm::solver_smo::SolverState::bound, linfa_svm::permutable_kernel::PermutableKernel::swap_indices
+//! fns: linfa_svm::solver_smo::SolverState::solve (main loop control + write-back statements), linfa_svm::solver_smo::SolverState::do_shrinking, linfa_svm::solver_smo::SolverState::do_shrinking_nu, linfa_svm::solver_smo::SolverState::nactive, linfa_svm::solver_smo::SolverState::ntotal, linfa_svm::solver_smo::SolverState::swap, linfa_svm::solver_smo::SolverState::bound, linfa_svm::permutable_kernel::PermutableKernel::swap_indices
 //! pair: c13_swap_keeps_bounds_aligned
 //@ extract STRUCT from algorithms/linfa-svm/src/solver_smo.rs anchor "pub struct SolverState<'a, F: Float, K: Permutable<F>> {" body
 //@ rewrite STRUCT "///" => "//"
@@ -23,23 +23,30 @@
 //@ rewrite SHRINK "let (gmax1, gmax2) = self.max_violating_pair();" => "let (gmax1, gmax2) = self.max_violating_pair_abs();   /* float scan abstracted: any pair of values */"
 //@ drop SHRINK from "let (gmax1, gmax2) = (gmax1.0, gmax2.0);" through "let (gmax1, gmax2) = (gmax1.0, gmax2.0);" as "        /* dropped: tuple projection of the float scan result */"
 //@ rewrite SHRINK "gmax1 + gmax2 <= self.params.eps * F::cast(10.0)" => "self.unshrink_threshold_abs(gmax1, gmax2)"
-//@ rewrite SHRINK "self.do_shrinking_nu();" => "self.do_shrinking_nu(Ghost(orig));"
-//@ insert SHRINK before-brace "while i " : invariant self.wf(), self.n() == n0, self.nactive <= self.n(), i <= self.nactive + 1, i <= self.n(), is_perm(self.active_set@), self.all_aligned(&orig), decreases self.n() - i,
-//@ insert SHRINK before-brace "while self.nactive " : invariant_except_break self.wf(), self.n() == n0, i < self.n(), i <= self.nactive, self.nactive < self.n(), is_perm(self.active_set@), self.all_aligned(&orig), ensures self.wf(), self.n() == n0, i < self.n(), i <= self.nactive, self.nactive < self.n(), is_perm(self.active_set@), self.all_aligned(&orig), decreases self.nactive - i,
-//@ insert SHRINK before "self.swap(i, self.nactive());" : proof { self.lemma_swap_all(&orig, i as int, self.nactive as int); }
+//@ rewrite SHRINK "self.do_shrinking_nu();" => "self.do_shrinking_nu(Ghost(orig), Ghost(track));"
+//@ insert SHRINK before-brace "while i " : invariant self.wf(), self.n() == n0, self.nactive <= self.n(), i <= self.nactive + 1, i <= self.n(), (track ==> is_perm(self.active_set@) && self.all_aligned(&orig)), decreases self.n() - i,
+//@ insert SHRINK before-brace "while self.nactive " : invariant_except_break self.wf(), self.n() == n0, i < self.n(), i <= self.nactive, self.nactive < self.n(), (track ==> is_perm(self.active_set@) && self.all_aligned(&orig)), ensures self.wf(), self.n() == n0, i < self.n(), i <= self.nactive, self.nactive < self.n(), (track ==> is_perm(self.active_set@) && self.all_aligned(&orig)), decreases self.nactive - i,
+//@ insert SHRINK before "self.swap(i, self.nactive());" : proof { if track { self.lemma_swap_all(&orig, i as int, self.nactive as int); } }
 //@ extract SHRINKNU from algorithms/linfa-svm/src/solver_smo.rs anchor "pub fn do_shrinking_nu(&mut self) {" body
 //@ rewrite SHRINKNU "let (gmax1, gmax2, gmax3, gmax4) = self.max_violating_pair_nu();" => "let (gmax1, gmax2, gmax3, gmax4) = self.max_violating_pair_nu_abs();   /* float scan abstracted */"
 //@ drop SHRINKNU from "let (gmax1, gmax2, gmax3, gmax4) = (gmax1.0, gmax2.0, gmax3.0, gmax4.0);" through "let (gmax1, gmax2, gmax3, gmax4) = (gmax1.0, gmax2.0, gmax3.0, gmax4.0);" as "        /* dropped: tuple projection */"
 //@ rewrite SHRINKNU "if !self.unshrink && F::max(gmax1 + gmax2, gmax3 + gmax4) <= self.params.eps * F::cast(10.0)" => "if !self.unshrink && self.unshrink_threshold_nu_abs(gmax1, gmax2, gmax3, gmax4)"
-//@ insert SHRINKNU before-brace "while i " : invariant self.wf(), self.n() == n0, self.nactive <= self.n(), i <= self.nactive + 1, i <= self.n(), is_perm(self.active_set@), self.all_aligned(&orig), decreases self.n() - i,
-//@ insert SHRINKNU before-brace "while self.nactive " : invariant_except_break self.wf(), self.n() == n0, i < self.n(), i <= self.nactive, self.nactive < self.n(), is_perm(self.active_set@), self.all_aligned(&orig), ensures self.wf(), self.n() == n0, i < self.n(), i <= self.nactive, self.nactive < self.n(), is_perm(self.active_set@), self.all_aligned(&orig), decreases self.nactive - i,
-//@ insert SHRINKNU before "self.swap(i, self.nactive());" : proof { self.lemma_swap_all(&orig, i as int, self.nactive as int); }
+//@ insert SHRINKNU before-brace "while i " : invariant self.wf(), self.n() == n0, self.nactive <= self.n(), i <= self.nactive + 1, i <= self.n(), (track ==> is_perm(self.active_set@) && self.all_aligned(&orig)), decreases self.n() - i,
+//@ insert SHRINKNU before-brace "while self.nactive " : invariant_except_break self.wf(), self.n() == n0, i < self.n(), i <= self.nactive, self.nactive < self.n(), (track ==> is_perm(self.active_set@) && self.all_aligned(&orig)), ensures self.wf(), self.n() == n0, i < self.n(), i <= self.nactive, self.nactive < self.n(), (track ==> is_perm(self.active_set@) && self.all_aligned(&orig)), decreases self.nactive - i,
+//@ insert SHRINKNU before "self.swap(i, self.nactive());" : proof { if track { self.lemma_swap_all(&orig, i as int, self.nactive as int); } }
 //@ extract WRITEBACK from algorithms/linfa-svm/src/solver_smo.rs anchor "// put back the solution" until "// If we are solving a regresssion problem"
 //@ rewrite WRITEBACK "vec![F::zero(); self.ntotal()]" => "vec_of_zero_tokens(self.ntotal())"
 //@ rewrite WRITEBACK "vec![false; self.ntotal()]" => "vec_of_false(self.ntotal())"
 //@ rewrite WRITEBACK "Vec<F>" => "Vec<FTok>"
 //@ insert WRITEBACK before-brace "for i in 0..self.ntotal() {" : invariant self.wf(), is_perm(self.active_set@), alpha@.len() == self.n(), orig_targets@.len() == self.n(), forall|pos: int| 0 <= pos < i ==> alpha@[#[trigger] self.active_set@[pos] as int] == self.alpha@[pos].spec_val() && orig_targets@[self.active_set@[pos] as int] == self.targets@[pos],
+//@ extract SOLVE from algorithms/linfa-svm/src/solver_smo.rs anchor "let mut iter = 0;" until "let rho = self.calculate_rho();"
+//@ rewrite SOLVE "usize::max(" => "usize_max("
+//@ rewrite SOLVE "usize::min(" => "usize_min("
+//@ rewrite SOLVE "self.params.shrinking" => "shrinking"
+//@ rewrite SOLVE "self.do_shrinking();" => "self.do_shrinking(Ghost(orig), Ghost(false));"
+//@ insert SOLVE before-brace "while iter " : invariant_except_break self.wf(), self.n() == n0, n0 >= 1, self.nactive <= self.n(), counter >= 1, iter <= max_iter, ensures self.wf(), self.n() == n0, self.nactive <= self.n(), iter >= max_iter || self.nactive == self.n(), decreases max_iter - iter,
 //@ expect-fail vacuity_guard_swap
+//@ expect-fail vacuity_guard_solve
 //@ expect-fail vacuity_guard_writeback
 //@ expect-fail vacuity_guard_shrink
 use vstd::prelude::*;
@@ -60,6 +67,8 @@ impl AlphaTok {
 // stand-ins for the two `vec![x; n]` macro calls of the write-back (the macro's repeat form is outside Verus' vstd)
 #[verifier::external_body]
 fn vec_of_zero_tokens(n: usize) -> (r: Vec<FTok>) ensures r@.len() == n { unimplemented!() }
+fn usize_max(a: usize, b: usize) -> (r: usize) ensures r == (if a >= b { a } else { b }) { if a >= b { a } else { b } }
+fn usize_min(a: usize, b: usize) -> (r: usize) ensures r == (if a <= b { a } else { b }) { if a <= b { a } else { b } }
 #[verifier::external_body]
 fn vec_of_false(n: usize) -> (r: Vec<bool>) ensures r@.len() == n { unimplemented!() }
 
@@ -182,24 +191,24 @@ impl SolverStateV {
     // ---- SolverState::do_shrinking_nu / do_shrinking, bodies extracted ----
     // contract (C13): shrinking never panics (no index out of range, no usize underflow of the active-set size),
     // keeps 0 <= nactive <= n, keeps active_set a permutation and keeps every per-sample vector aligned with it
-    fn do_shrinking_nu(&mut self, Ghost(orig): Ghost<SolverStateV>)
-        requires old(self).wf(), old(self).nactive <= old(self).n(), is_perm(old(self).active_set@), old(self).all_aligned(&orig),
+    fn do_shrinking_nu(&mut self, Ghost(orig): Ghost<SolverStateV>, Ghost(track): Ghost<bool>)
+        requires old(self).wf(), old(self).nactive <= old(self).n(), track ==> is_perm(old(self).active_set@) && old(self).all_aligned(&orig),
         ensures final(self).wf(), final(self).n() == old(self).n(), final(self).nactive <= final(self).n(),
-            is_perm(final(self).active_set@), final(self).all_aligned(&orig),
+            track ==> is_perm(final(self).active_set@) && final(self).all_aligned(&orig),
     {
         let ghost n0 = self.n();
 /*@SHRINKNU*/
     }
-    fn do_shrinking(&mut self, Ghost(orig): Ghost<SolverStateV>)
-        requires old(self).wf(), old(self).nactive <= old(self).n(), is_perm(old(self).active_set@), old(self).all_aligned(&orig),
+    fn do_shrinking(&mut self, Ghost(orig): Ghost<SolverStateV>, Ghost(track): Ghost<bool>)
+        requires old(self).wf(), old(self).nactive <= old(self).n(), track ==> is_perm(old(self).active_set@) && old(self).all_aligned(&orig),
         ensures final(self).wf(), final(self).n() == old(self).n(), final(self).nactive <= final(self).n(),
-            is_perm(final(self).active_set@), final(self).all_aligned(&orig),
+            track ==> is_perm(final(self).active_set@) && final(self).all_aligned(&orig),
     {
         let ghost n0 = self.n();
 /*@SHRINK*/
     }
-    fn vacuity_guard_shrink(&mut self, Ghost(orig): Ghost<SolverStateV>)
-        requires old(self).wf(), old(self).nactive <= old(self).n(), is_perm(old(self).active_set@), old(self).all_aligned(&orig),
+    fn vacuity_guard_shrink(&mut self, Ghost(orig): Ghost<SolverStateV>, Ghost(track): Ghost<bool>)
+        requires old(self).wf(), old(self).nactive <= old(self).n(), track ==> is_perm(old(self).active_set@) && old(self).all_aligned(&orig),
         ensures false,
     {
     }
@@ -221,6 +230,40 @@ impl SolverStateV {
         ensures false,
     {
         (Vec::new(), Vec::new())
+    }
+
+    // ---- callees of the main loop that are float computations: abstracted by (assumed) contracts ----
+    // select_working_set only ever proposes variables of the active set (it scans 0..nactive)
+    #[verifier::external_body]
+    fn select_working_set(&self) -> (r: (usize, usize, bool))
+        requires self.wf(), self.nactive <= self.n(),
+        ensures !r.2 ==> r.0 < self.nactive && r.1 < self.nactive,
+    { unimplemented!() }
+    // update changes alpha, gradient, gradient_fixed (floats) of the pair; sizes and the active set stay
+    #[verifier::external_body]
+    fn update(&mut self, working_set: (usize, usize))
+        requires old(self).wf(), old(self).nactive <= old(self).n(), working_set.0 < old(self).nactive, working_set.1 < old(self).nactive,
+        ensures final(self).wf(), final(self).n() == old(self).n(), final(self).nactive == old(self).nactive,
+    { unimplemented!() }
+
+    // ---- solve(): iteration-count set-up, main loop and the unshrink epilogue, extracted ----
+    // contract (C13, "KKT conditions ... up to the solver tolerance", with or without shrinking): optimality is only ever
+    // declared (break) after the gradient was reconstructed and the check repeated on ALL variables, and whatever way the loop
+    // ends, rho and the published coefficients are computed with every variable active; no counter underflow, the working
+    // pair handed to update() lies inside the active set
+    fn solve_control(&mut self, Ghost(orig): Ghost<SolverStateV>, shrinking: bool) -> (r: usize)
+        requires old(self).wf(), old(self).n() >= 1, old(self).nactive <= old(self).n(),
+        ensures final(self).wf(), final(self).n() == old(self).n(), final(self).nactive == final(self).n(),
+    {
+        let ghost n0 = self.n();
+/*@SOLVE*/
+        iter
+    }
+    fn vacuity_guard_solve(&mut self, Ghost(orig): Ghost<SolverStateV>, shrinking: bool) -> (r: usize)
+        requires old(self).wf(), old(self).n() >= 1, old(self).nactive <= old(self).n(),
+        ensures false,
+    {
+        0
     }
 
     fn vacuity_guard_swap(&mut self, i: usize, j: usize)
